@@ -3,11 +3,18 @@ EXTENDS Transport
 \* payload ids: the leading digits are the length in bytes
 MCPLenOf == [p \in {"0", "1a", "1b", "2a", "300a", "70000a", "4000000a"} |->
                CASE p = "0" -> 0 [] p = "1a" -> 1 [] p = "1b" -> 1 [] p = "2a" -> 2 [] p = "300a" -> 300 [] p = "70000a" -> 70000 [] p = "4000000a" -> 4000000]
-V2V2 == <<"v2", "v2">>
-V1V1 == <<"v1", "v1">>
-V1V2 == <<"v1", "v2">>
-NoneScripted == <<FALSE, FALSE>>
-Scripted1 == <<TRUE, FALSE>>
-Scripted2 == <<FALSE, TRUE>>
-\* bounds on monotone quantities for the exhaustive runs
+CV2V2 == [kind |-> <<"v2", "v2">>, scripted |-> <<FALSE, FALSE>>]
+CV1V1 == [kind |-> <<"v1", "v1">>, scripted |-> <<FALSE, FALSE>>]
+CV1V2 == [kind |-> <<"v1", "v2">>, scripted |-> <<FALSE, FALSE>>]
+CS2V2 == [kind |-> <<"v2", "v2">>, scripted |-> <<TRUE, FALSE>>]
+CV2S2 == [kind |-> <<"v2", "v2">>, scripted |-> <<FALSE, TRUE>>]
+ConfsAll == {CV2V2, CV1V1, CV1V2, CS2V2, CV2S2}
+ConfsReal == {CV2V2, CV1V1, CV1V2}
+ConfsV2 == {CV2V2}
+ConfsV1 == {CV1V1, CV1V2}
+ConfsV1V1 == {CV1V1}
+ConfsV1V2 == {CV1V2}
+ConfsScripted == {CS2V2, CV2S2}
+ConfsS2V2 == {CS2V2}
+ConfsV2S2 == {CV2S2}
 ====
